@@ -531,6 +531,77 @@ func mirrorBrokenChunk(c *Ctx, op string) {
 	c.Distinct(op)
 }
 
+// mirrorBrokenHalf: an http source announces the whole ware and hangs up after half of it (a read error in the middle of
+// the stream, which the zip transmat spools to a local file first): scan, mirror and unpack fail, and whatever they
+// spooled under $TMPDIR is gone when they return. Recipe: "mirror-brokenhalf <tar|zip>".
+func mirrorBrokenHalf(c *Ctx, op string) {
+	c.Begin(op)
+	fmtName := strings.Fields(op)[1]
+	caseCounter++
+	base := filepath.Join(c.Work, fmt.Sprintf("mbh%d", caseCounter))
+	defer rmrf(base)
+	src, wh, tgt, tmpDir := filepath.Join(base, "src"), filepath.Join(base, "wh"), filepath.Join(base, "tgt"), filepath.Join(base, "tmp")
+	for _, d := range []string{src, wh, tgt, tmpDir} {
+		os.MkdirAll(d, 0755)
+	}
+	os.Setenv("RIO_CACHE", filepath.Join(base, "cache"))
+	oldTmp := os.Getenv("TMPDIR")
+	os.Setenv("TMPDIR", tmpDir)
+	defer os.Setenv("TMPDIR", oldTmp)
+	x := uint32(5)
+	b := make([]byte, 300000)
+	for j := range b {
+		x = x*1664525 + 1013904223
+		b[j] = byte(x >> 24)
+	}
+	os.WriteFile(filepath.Join(src, "f"), b, 0644)
+	fn := funcsFor(fmtName)
+	ctx := context.Background()
+	id, err := fn.pack(ctx, api.PackType(fmtName), src, api.MustParseFilesetPackFilter(losslessPackStr), whAddr("file", wh), rio.Monitor{})
+	c.EmitR(op, "skip", "skip")
+	if err != nil {
+		return
+	}
+	ware, _ := os.ReadFile(storedWarePath("file", wh, id))
+	srv := httptest.NewServer(http.HandlerFunc(func(w http.ResponseWriter, r *http.Request) {
+		w.Header().Set("Content-Length", fmt.Sprint(len(ware)))
+		w.Write(ware[:len(ware)/2])
+		if hj, ok := w.(http.Hijacker); ok {
+			if cn, _, e := hj.Hijack(); e == nil {
+				cn.Close()
+			}
+		}
+	}))
+	defer srv.Close()
+	source := api.WarehouseLocation(srv.URL + "/ware")
+	uf := api.MustParseFilesetUnpackFilter(losslessUnpackStr)
+	results := map[string]string{}
+	g1, e1, p1 := safeCall(func() (api.WareID, error) {
+		return fn.scan(ctx, api.PackType(fmtName), uf, rio.Placement_Direct, source, rio.Monitor{})
+	})
+	results["scan"] = resTok(g1, e1, p1)
+	g2, e2, p2 := safeCall(func() (api.WareID, error) {
+		return fn.mirror(ctx, id, whAddr("ca", tgt), []api.WarehouseLocation{source}, rio.Monitor{})
+	})
+	results["mirror"] = resTok(g2, e2, p2)
+	g3, e3, p3 := safeCall(func() (api.WareID, error) {
+		return fn.unpack(ctx, id, filepath.Join(base, "dst"), uf, rio.Placement_None, []api.WarehouseLocation{source}, rio.Monitor{})
+	})
+	results["unpack"] = resTok(g3, e3, p3)
+	for k, r := range results {
+		c.H("brokenhalf:" + fmtName + ":" + k + ":" + strings.Fields(r)[0])
+		if strings.HasPrefix(r, "ok") {
+			c.PropFail("mirror-accepted-bad", fmt.Sprintf("%s from an http source that hung up after half of the ware answered %s", k, r), op)
+		} else if r == "panic" {
+			c.PropFail("mirror-panic", k+" from an http source that hung up in mid-transfer panicked", op)
+		}
+	}
+	if ents, _ := os.ReadDir(tmpDir); len(ents) > 0 {
+		c.PropFail("scan-creates-files", fmt.Sprintf("scan / mirror / unpack of a %s ware whose source broke off in mid-transfer left %d file(s) in $TMPDIR, e.g. %s", fmtName, len(ents), ents[0].Name()), op)
+	}
+	c.Distinct(op)
+}
+
 // mirrorNoTarget: a mirror that names no target ("" — the CLI's --target left out) has nowhere to put the ware: it does
 // not report success. Recipe: "mirror-notarget <tar|zip>".
 func mirrorNoTarget(c *Ctx, op string) {
@@ -572,6 +643,8 @@ func mirrorEngine(c *Ctx) {
 				mirrorBrokenChunk(c, op)
 			} else if strings.HasPrefix(op, "mirror-notarget ") {
 				mirrorNoTarget(c, op)
+			} else if strings.HasPrefix(op, "mirror-brokenhalf ") {
+				mirrorBrokenHalf(c, op)
 			}
 		}
 		return
@@ -581,6 +654,8 @@ func mirrorEngine(c *Ctx) {
 			mirrorBrokenChunk(c, fmt.Sprintf("mirror-brokenchunk %s %s", fm, k))
 		}
 	}
+	mirrorBrokenHalf(c, "mirror-brokenhalf zip")
+	mirrorBrokenHalf(c, "mirror-brokenhalf tar")
 	mirrorNoTarget(c, "mirror-notarget tar")
 	mirrorNoTarget(c, "mirror-notarget zip")
 	n := 12
